@@ -23,7 +23,7 @@ import common as C
 HERE = os.path.dirname(os.path.abspath(__file__))
 CORPUS = os.path.join(C.VERIF, "corpus", "C17")
 
-CLASS_NAMES = {1: "quota_not_enforced"}
+CLASS_NAMES = {}      # no finding class left (quota_not_enforced repaired by fixes/C17-4)
 
 # ---------------------------------------------------------------------------
 # population of every world
@@ -482,8 +482,7 @@ Definition spec_ok_on (c : pcase) (addrs : list str) : bool :=
   let os := map erase (fst (spec_txn (c_cfg c) (c_db c) addrs (c_msg c))) in
   list_eqb Bool.eqb (flags_of os) (o_flags c) && same_gains (gains_of os) (o_gains c).
 Definition class_on (c : pcase) (addrs : list str) : nat :=
-  match classify (c_cfg c) (c_db c) addrs (c_msg c) with
-  | None => 0 | Some K_quota_not_enforced => 1 end%nat.
+  0%nat.      (* Spec.classify is gone: no finding class left *)
 (* the addresses as the MODEL parses the lines (None when a line is refused with 501) *)
 Fixpoint all_some (l : list (option str)) : option (list str) :=
   match l with [] => Some [] | Some x :: l' => option_map (cons x) (all_some l') | None :: _ => None end.
